@@ -13,6 +13,8 @@ package lazy
 //@   props C14 C07
 //@   arith mixed
 //@   ensures 0 <= result && result <= 0x07FFFFFF && result == int(sid & 0x07FFFFFF)
+//@   ensures sid <= 0x07FFFFFF ==> result == int(sid)
+//@   ensures sid >= 0x08000000 && sid <= 0x0FFFFFFF ==> result == int(sid) - 0x08000000
 //@ func (StateID).IsMatchTag
 //@   props C14 C07
 //@   arith mixed
@@ -33,6 +35,7 @@ package lazy
 //@   props C14 C07
 //@   arith mixed
 //@   ensures result == sid | 0x08000000 && result & 0x07FFFFFF == sid & 0x07FFFFFF
+//@   ensures sid <= 0x07FFFFFF ==> int(result) == int(sid) + 0x08000000
 //@ func (StateID).WithStartTag
 //@   props C14 C07
 //@   arith mixed
@@ -81,3 +84,83 @@ package lazy
 //@   props C07
 //@   requires c != nil && 0 <= c.stride && c.stride <= 0x07FFFFFF
 //@   ensures result == c.clearCount
+
+//@ func (*State).ID
+//@   props C07
+//@   requires s != nil
+//@   ensures result == s.id
+//@ func (*State).NFAStates
+//@   props C07
+//@   requires s != nil
+//@   ensures sameslice(result, s.nfaStates)
+//@ func (*State).AccelExitBytes
+//@   props C07
+//@   requires s != nil
+//@   ensures sameslice(result, s.accelBytes)
+
+// rows at or above nextID belong to no live state: they must read as "unknown transition"
+//@ spec func freeRowsInvalid(c *DFACache) bool = forall j :: int(c.nextID) <= j && j < len(c.flatTrans) ==> c.flatTrans[j] == InvalidState
+//@ spec func cacheOK(c *DFACache) bool = c != nil && 0 < c.stride && c.stride <= 65536 && c.nextID <= 0x07FF0000 && off(c.flatTrans) == 0
+
+//@ func (*DFACache).MemoryUsage
+//@   props C20 C07
+//@   opt math_int
+//@   requires c != nil
+//@   ensures result >= 4 * len(c.flatTrans) + 8 * len(c.stateList)
+//@   loop 1: invariant -1 <= rangeindex && usage >= 4 * len(c.flatTrans) + 8 * len(c.stateList)
+
+//@ func (*DFACache).IsFull
+//@   props C20 C07
+//@   requires c != nil
+//@   ensures !result ==> 4 * len(c.flatTrans) + 8 * len(c.stateList) < c.capacityBytes
+
+//@ func (*DFACache).Insert
+//@   props C20 C13 C07
+//@   opt map_values_nonnil
+//@   requires cacheOK(c) && state != nil && freeRowsInvalid(c)
+//@   requires state.id == InvalidState || (state.id <= 0x0FFFFFFF && int(state.id & 0x07FFFFFF) + c.stride <= int(c.nextID))
+//@   modifies c.*, c.flatTrans[*], state.id
+//@   ensures result1 != nil ==> len(c.flatTrans) == old(len(c.flatTrans)) && c.nextID == old(c.nextID) && result0 == InvalidState
+//@   ensures len(c.flatTrans) != old(len(c.flatTrans)) ==> 4 * old(len(c.flatTrans)) < c.capacityBytes
+//@   ensures len(c.flatTrans) <= max(old(len(c.flatTrans)), int(c.nextID))
+//@   ensures len(c.flatTrans) <= old(len(c.flatTrans)) + 2 * c.stride || len(c.flatTrans) <= int(c.nextID)
+//@   ensures c.stride == old(c.stride) && c.capacityBytes == old(c.capacityBytes) && c.nextID >= old(c.nextID)
+//@   ensures freeRowsInvalid(c)
+//@   ensures forall j :: old(len(c.flatTrans)) <= j && j < len(c.flatTrans) ==> c.flatTrans[j] == InvalidState
+//@   loop 1: invariant 0 <= i && i <= growth && len(c.flatTrans) == old(len(c.flatTrans)) + i && off(c.flatTrans) == 0
+//@   loop 1: invariant forall j :: 0 <= j && j < len(c.flatTrans) ==> c.flatTrans[j] == ite(j < old(len(c.flatTrans)), old(c.flatTrans[j]), InvalidState)
+//@   loop 1: invariant c.stride == old(c.stride) && c.capacityBytes == old(c.capacityBytes)
+//@   loop 1: invariant base(c.flatTrans) == old(base(c.flatTrans)) || fresh(c.flatTrans)
+//@   loop 1: decreases growth - i
+
+//@ func (*DFACache).SetFlatTransition
+//@   props C13 C07
+//@   requires c != nil && 0 <= classIdx && classIdx <= 65536
+//@   modifies c.flatTrans[*]
+//@   ensures forall j :: 0 <= j && j < len(c.flatTrans) && j != int(fromID & 0x07FFFFFF) + classIdx ==> c.flatTrans[j] == old(c.flatTrans[j])
+//@   ensures int(fromID & 0x07FFFFFF) + classIdx < len(c.flatTrans) ==> c.flatTrans[int(fromID & 0x07FFFFFF) + classIdx] == toID
+
+//@ func (*DFACache).FlatNext
+//@   props C07
+//@   requires c != nil && 0 <= classIdx && int(sid & 0x07FFFFFF) + classIdx < len(c.flatTrans)
+//@   ensures result == c.flatTrans[int(sid & 0x07FFFFFF) + classIdx]
+
+//@ func (*DFACache).getState
+//@   props C07 C13
+//@   requires c != nil && c.stride >= 0
+//@   ensures result != nil ==> c.stride > 0 && int(id & 0x07FFFFFF) / c.stride < len(c.stateList) && result == c.stateList[int(id & 0x07FFFFFF) / c.stride]
+
+//@ func (*DFACache).registerState
+//@   props C07 C13 C20
+//@   requires c != nil && state != nil && c.stride >= 0
+//@   modifies c.stateList, c.stateList[*]
+//@   ensures c.stride > 0 ==> int(state.id & 0x07FFFFFF) / c.stride < len(c.stateList) && c.stateList[int(state.id & 0x07FFFFFF) / c.stride] == state
+//@   ensures c.stride > 0 ==> len(c.stateList) == max(old(len(c.stateList)), int(state.id & 0x07FFFFFF) / c.stride + 1)
+//@   loop 1: invariant len(c.stateList) >= old(len(c.stateList)) && len(c.stateList) <= max(old(len(c.stateList)), idx + 1) && idx == int(state.id & 0x07FFFFFF) / c.stride && c.stride > 0
+//@   loop 1: invariant base(c.stateList) == old(base(c.stateList)) || fresh(c.stateList)
+//@   loop 1: decreases idx + 1 - len(c.stateList)
+
+//@ func safeOffset
+//@   props C14 C07
+//@   requires 0 <= classIdx && classIdx <= 65536
+//@   ensures result >= 0
